@@ -134,10 +134,11 @@ ADDENDA = {
     'C01': ' Since the repair of F15 over-decomposed configurations (ranks owning empty blocks) are part of the correspondence.',
     'C20': ' Tie by TRANSLATION as well: harness/translate_pure.py regenerates Generated/ProcGridGen.lean (both functions of process_grid.py, every while loop a fuel-recursive function over the record of all locals, / in exact rationals) on every run and Props/C20Gen.lean proves gen_from_max_eq / gen_procGridFromMax_eq / gen_procGrid_eq (generated = model for all inputs with max_proc1, size >= 1 and every sufficient fuel) and gen_procgrid_spec (termination, validity, RuntimeError iff no factorisation, stated on the generated function).',
     'C07': ' Tie by TRANSLATION for the binary search: harness/translate_pure.py regenerates Generated/FindSpanGen.lean from nu_find_span on every run and Props/C07Gen.lean proves gen_find_span_eq / gen_find_span_correct (the generated span search returns what the model returns; terminates and finds the containing cell on sorted knots).',
+    'C14': ' Props/C14Extra.lean (+Lemmas/PoissonManufactured.lean): manufactured_exact(_algebraic,_discrete,_splines,_kernels): exactness for manufactured solutions as a theorem under RefExact (leggauss(n) exact to the constructor degree; stated, not proved) and trivial kernel of the mode matrix; quadExact_of_reference_rule for arbitrary breaks (its proof exposed F17, repaired by b54f0ae: per-cell half-widths); old_single_multFactor_not_exact describes the behaviour before the fix. The correspondence uses graded radial breaks in a third of the cases.',
     'C13': ' Props/C13Extra.lean: fd_converges_with_order (the analytic clause, via Taylor with Lagrange remainder), fd_error_explicit, fd_converges_uniformly, pargrad_converges_with_order.',
     'C18': ' Props/C18Extra.lean: constants_order_independent (full clause), constants_success_iff_resolvable, constants_run_is_solution.',
     'C06': ' Props/C06Traces.lean: handler_traces_projection (for EVERY handler, route map and sequence of transposes the predicted per-rank traces are the projections of one explicit event list), directTrace_members_agree, early_exit_consistent, handler_transposes_never_deadlock; Props/C06SwapperTraces.lean: the same for the LayoutSwapper (swapper_traces_projection, crossTrace_members_agree, swapper_transposes_never_deadlock) under CommOK (the constructor chose its communicators; proved for the driver swapper). early_exit_old_inconsistent / swapper_early_exit_inconsistent are the kernel-checked witnesses of the defects F15 / F16b found by this proof attempt and repaired in /repo. Props/C06Extra.lean: route_deterministic (any two iteration orders give the same routes/distances/connectedness for distinct names), route_canonical (graph distance, lexicographically least shortest path), route_nodup_needed.',
-    'C05': ' C05.timestep_decomposition_independent (Props/C15Extra.lean, over the loop body REGENERATED from fullSimulation.py): runs on two decompositions whose grid-level operators assemble to the same global operators agree, for a step and for a whole run.',
+    'C05': ' C05.timestep_decomposition_independent (Props/C15Extra.lean, over the loop body REGENERATED from fullSimulation.py): runs on two decompositions whose grid-level operators assemble to the same global operators agree, for a step and for a whole run. Props/C05Extra.lean: wiring_operators_independent derives that hypothesis from the wiring theorems, giving timestep_decomposition_independent_wiring / timestep_wiring_serial with only kernels and layout contracts as parameters.',
     'C08': ' Props/C08Extra.lean: marsden_identity, polynomial_in_spline_space, greville_reproduces_identity, poly_reproduction (full clause; injectivity of the collocation matrix is the one explicit hypothesis).',
     'C09': ' Props/C09Extra.lean: integrals_antiderivative (full clause for sorted knots with simple interior knots), periodic_tail_antiderivative, interior_integral_full, uniform_periodic_equal_weights_low_degree (degrees 1-6 unconditional; >=7 under unisolvence).',
     'C15': ' Props/C15Extra.lean: equilibrium_fixed_point(_passes,_run,_kernels), equilibrium_initial_potential about the REGENERATED loop body: (f_eq, phi=0) is kept by one pass, any number of passes, pre and post; kernel contracts instantiated from C10-C13/C15/C16, layout/save/restore contracts remain hypotheses.',
